@@ -1,6 +1,302 @@
 #!/usr/bin/env python3
-"""Verus back end (verbatim extraction + lemma layer)."""
+"""Verus back end.
+
+V-a  verbatim extraction: `//@extract-fn` directives in contracts/verus/<unit>.rsin name a function
+     of /repo by (file, impl header line, normalised signature). On every run the text of that
+     function is copied out of /repo's CURRENT source -- the body byte-identical -- and the
+     `requires/ensures` given in the template are spliced between signature and body.
+     Dropped by extraction, exactly: doc comments and attributes above the function, every item of
+     the file that is not named; the return type `-> T` is rewritten to `-> (r: T)` so that the
+     contract can name the result. Nothing inside a body is touched.
+V-b  lemma layer: `proof fn`s over the shared vocabulary (do not depend on /repo).
+
+Attribution (measured: --output-json only carries totals): an obligation is DISCHARGED when no
+diagnostic of the run points into its line range of the assembled file AND Verus' totals are
+consistent (errors == number of obligations with a diagnostic, verified >= 1).
+"""
+import json
+import os
+import re
+import shutil
+import subprocess
+import time
+from pathlib import Path
+
+import vlib
+from vlib import Undecided, VERIF, REPO
+
+VDIR = VERIF / "contracts" / "verus"
+
+
+def units():
+    return sorted(p.stem for p in VDIR.glob("*.rsin"))
+
+
+def parse_unit(unit):
+    text = (VDIR / f"{unit}.rsin").read_text()
+    lines = text.split("\n")
+    obs = []
+    cur = None
+    for i, l in enumerate(lines):
+        m = re.match(r"\s*//@ob\s+(\S+)\s*$", l)
+        if m:
+            cur = {"id": m.group(1), "unit": unit, "props": [], "kind": "lemma", "fns": [], "post": "", "pre": "", "line": i}
+            obs.append(cur)
+            continue
+        m = re.match(r"\s*//@\s*(props|kind|fns|post|pre):\s*(.*)$", l)
+        if m and cur is not None:
+            k, v = m.group(1), m.group(2).strip()
+            if k == "props":
+                cur["props"] = v.split()
+            elif k == "kind":
+                cur["kind"] = v
+            elif k == "fns":
+                cur["fns"] = [] if v == "-" else v.split()
+            else:
+                cur[k] = (cur[k] + " " + v).strip()
+    for o in obs:
+        if not o["props"] or not o["post"]:
+            raise Undecided(f"{unit}.rsin: obligation {o['id']} needs props and post")
+    return obs
+
+
 def load_obligations():
-    return []
+    out = []
+    for u in units():
+        out += parse_unit(u)
+    return out
+
+
+def norm(s):
+    return re.sub(r"\s+", " ", s).strip()
+
+
+def extract_fn(relfile, impl, signature):
+    """Return (signature_text, body_text, line_no) of the named function in /repo's current source."""
+    p = REPO / relfile
+    if not p.exists():
+        raise Undecided(f"anchor lost: {relfile}")
+    text = p.read_text()
+    start = 0
+    if impl != "-":
+        hits = [m.start() for m in re.finditer(r"^" + re.escape(impl) + r"\s*$", text, re.M)]
+        if len(hits) != 1:
+            raise Undecided(f"anchor lost: impl header {impl!r} occurs {len(hits)} times in {relfile}")
+        start = hits[0]
+        # end of this impl block
+        b = text.index("{", start)
+        end = _match_brace(text, b)
+    else:
+        end = len(text)
+    name = re.search(r"\bfn\s+(\w+)", signature).group(1)
+    cands = []
+    for m in re.finditer(r"^[ \t]*((?:pub(?:\([a-z]+\))?\s+)?(?:const\s+)?fn\s+" + re.escape(name) + r"\b[^{;]*)\{", text[start:end], re.M):
+        if norm(m.group(1)) == norm(signature):
+            cands.append(m)
+    if len(cands) != 1:
+        raise Undecided(f"anchor lost: fn {signature!r} matches {len(cands)} times in {relfile} ({impl})")
+    m = cands[0]
+    b = start + m.end() - 1
+    e = _match_brace(text, b)
+    body = text[b:e + 1]
+    line = text[:start + m.start()].count("\n") + 1
+    return m.group(1).strip(), body, line
+
+
+def _match_brace(text, b):
+    depth = 0
+    i = b
+    in_str = None
+    while i < len(text):
+        c = text[i]
+        if in_str:
+            if c == "\\":
+                i += 2
+                continue
+            if c == in_str:
+                in_str = None
+        elif c == '"':
+            in_str = '"'
+        elif c == "'" and re.match(r"'(\\.|[^\\'])'", text[i:i + 4]):
+            i += len(re.match(r"'(\\.|[^\\'])'", text[i:i + 4]).group(0)) - 1
+        elif c == "/" and text[i:i + 2] == "//":
+            i = text.index("\n", i)
+            continue
+        elif c == "{":
+            depth += 1
+        elif c == "}":
+            depth -= 1
+            if depth == 0:
+                return i
+        i += 1
+    raise Undecided("unbalanced braces while extracting")
+
+
+def assemble(unit):
+    """Expand //@extract-fn directives. Returns (text, ranges{ob_id: (lo, hi)}, extracted[list])."""
+    src = (VDIR / f"{unit}.rsin").read_text().split("\n")
+    out = []
+    extracted = []
+    i = 0
+    while i < len(src):
+        l = src[i]
+        m = re.match(r"(\s*)//@extract-fn\s+(.*?)\s*\|\s*(.*?)\s*\|\s*(.*?)\s*$", l)
+        if not m:
+            out.append(l)
+            i += 1
+            continue
+        indent, relfile, impl, signature = m.groups()
+        # optional //@ret and //@spec ... //@end
+        ret = None
+        spec = []
+        i += 1
+        while i < len(src):
+            mm = re.match(r"\s*//@ret\s+(\w+)\s*$", src[i])
+            if mm:
+                ret = mm.group(1)
+                i += 1
+                continue
+            if re.match(r"\s*//@spec\s*$", src[i]):
+                i += 1
+                while not re.match(r"\s*//@end\s*$", src[i]):
+                    spec.append(src[i])
+                    i += 1
+                i += 1
+                continue
+            break
+        sig, body, line = extract_fn(relfile, impl, signature)
+        if ret:
+            mr = re.search(r"->\s*(.+)$", sig)
+            if not mr:
+                raise Undecided(f"fn {signature!r} has no return type to bind")
+            sig = sig[:mr.start()] + f"-> ({ret}: {mr.group(1).strip()})"
+        out.append(f"{indent}// ---- extracted verbatim from {relfile}:{line} ----")
+        out.append(indent + sig)
+        out += spec
+        # re-indent nothing: the body is byte-identical
+        out.append(body)
+        out.append(f"{indent}// ---- end of extracted function ----")
+        extracted.append({"file": relfile, "line": line, "impl": impl, "signature": norm(signature), "body_sha": __import__("hashlib").sha256(body.encode()).hexdigest()[:12]})
+    text = "\n".join(out)
+    # obligation ranges in the assembled file
+    ranges = {}
+    lines = text.split("\n")
+    marks = [(n, re.match(r"\s*//@ob\s+(\S+)", l).group(1)) for n, l in enumerate(lines) if re.match(r"\s*//@ob\s+\S+", l)]
+    ends = [n for n, l in enumerate(lines) if re.match(r"\s*//@ob-end\s*$", l)]
+    for k, (n, oid) in enumerate(marks):
+        nxt = marks[k + 1][0] if k + 1 < len(marks) else len(lines)
+        e = min([x for x in ends if x > n] + [nxt])
+        ranges[oid] = (n + 1, e + 1)  # 1-based inclusive-ish
+    return text, ranges, extracted
+
+
 def run_obligations(vobs, prop):
-    return {"results": [], "undecided": [], "violations": [], "cmds": []}
+    out = {"results": [], "undecided": [], "violations": [], "cmds": []}
+    by_unit = {}
+    for o in vobs:
+        by_unit.setdefault(o["unit"], []).append(o)
+    work = vlib.SCRATCH_BASE / f"wax-verif.verus.{prop}.{os.getpid()}"
+    if work.exists():
+        shutil.rmtree(work)
+    work.mkdir(parents=True)
+    try:
+        for unit, obs in by_unit.items():
+            all_unit_obs = parse_unit(unit)
+            text, ranges, extracted = assemble(unit)
+            f = work / f"{unit}.rs"
+            f.write_text(text)
+            cmd = ["verus", str(f), "--output-json", "--time", "--crate-type", "lib"]
+            t0 = time.time()
+            rc, so, se, wall = vlib.sh(cmd, cwd=work, timeout=600)
+            out["cmds"].append(f"verus <assembled {unit}.rs> --output-json --time --crate-type lib")
+            log = VERIF / "evidence" / "logs"
+            log.mkdir(parents=True, exist_ok=True)
+            (log / f"{prop}.verus.{unit}.log").write_text(so + "\n----stderr----\n" + se)
+            (log / f"{prop}.verus.{unit}.rs").write_text(text)
+            try:
+                j = json.loads(so[so.index("{"):])
+                vr = j["verification-results"]
+            except Exception:
+                out["undecided"].append(f"verus gave no JSON result for {unit} (rc={rc}): {se[-300:]}")
+                for o in obs:
+                    out["results"].append(result(o, "UNDECIDED", None, extracted))
+                continue
+            total_s = (j.get("times-ms", {}).get("total", 0) or 0) / 1000.0
+            # diagnostics -> lines
+            diag_lines = [int(m.group(1)) for m in re.finditer(r"-->\s*" + re.escape(str(f)) + r":(\d+):\d+", se)]
+            err_msgs = re.findall(r"^error(?:\[\w+\])?: (.*)$", se, re.M)
+            hit = {}
+            stray = []
+            for dl in diag_lines:
+                owner = [oid for oid, (lo, hi) in ranges.items() if lo <= dl < hi]
+                if owner:
+                    hit.setdefault(owner[0], []).append(dl)
+                else:
+                    stray.append(dl)
+            # only "error" diagnostics count; verus prints notes with --> too, so use error blocks
+            err_blocks = re.findall(r"^error(?:\[\w+\])?: .*?(?=^error|^warning|\Z)", se, re.M | re.S)
+            hit = {}
+            stray = []
+            for blk in err_blocks:
+                if blk.startswith("error: aborting") or "could not compile" in blk:
+                    continue
+                ls = [int(m.group(1)) for m in re.finditer(r"-->\s*" + re.escape(str(f)) + r":(\d+):\d+", blk)]
+                owners = {oid for dl in ls for oid, (lo, hi) in ranges.items() if lo <= dl < hi}
+                if len(owners) >= 1:
+                    for oid in owners:
+                        hit.setdefault(oid, []).append(blk.split("\n")[0])
+                else:
+                    stray.append(blk.split("\n")[0])
+            compile_fail = vr.get("encountered-vir-error") or ("verified" not in vr)
+            consistent = (not stray) and (not compile_fail) and vr.get("errors", 0) == len(hit) and vr.get("verified", 0) >= 1
+            ids_in_unit = {o["id"] for o in all_unit_obs}
+            canaries = [o for o in all_unit_obs if o["kind"] == "canary"]
+            for c in canaries:
+                if c["id"] not in hit:
+                    consistent = False
+                    out["undecided"].append(f"{c['id']}: Verus canary (ensures false) was not rejected")
+            if not consistent and not any("canary" in u for u in out["undecided"]):
+                out["undecided"].append(f"verus run for {unit} not attributable: totals {vr}, stray diagnostics {stray[:3]}, rc={rc}")
+            for o in obs + [c for c in canaries if c not in obs]:
+                if not consistent:
+                    out["results"].append(result(o, "UNDECIDED", total_s, extracted))
+                    continue
+                if o["kind"] == "canary":
+                    r = result(o, "CANARY-FAILED-AS-REQUIRED", total_s, extracted)
+                    r["raw_status"] = "FAILED"
+                    out["results"].append(r)
+                    continue
+                if o["id"] in hit:
+                    r = result(o, "FAILED", total_s, extracted)
+                    r["failed_checks"] = [{"description": d, "file": f"contracts/verus/{unit}.rsin", "line": 0, "function": o["id"]} for d in hit[o["id"]]]
+                    out["results"].append(r)
+                    rec = {
+                        "property": prop, "obligation": o["id"], "unit": unit, "verifier": "verus-0.2026.09.13",
+                        "functions": o["fns"], "pre": o["pre"], "post": o["post"],
+                        "failed_checks": r["failed_checks"],
+                        "verifier_output": [b for b in err_blocks if any(h in b for h in hit[o["id"]])][:4],
+                        "inputs": None, "has_input": False,
+                        "note": "Verus yields no counterexample; the Kani obligation with the same contract (if any) carries the failing input",
+                        "repo_tree": vlib.repo_fingerprint(),
+                    }
+                    d = VERIF / "replays"
+                    d.mkdir(exist_ok=True)
+                    pth = d / f"{o['id']}.json"
+                    rec["replay"] = str(pth)
+                    pth.write_text(json.dumps(rec, indent=1) + "\n")
+                    out["violations"].append(rec)
+                else:
+                    out["results"].append(result(o, "DISCHARGED", total_s, extracted))
+    finally:
+        shutil.rmtree(work, ignore_errors=True)
+    return out
+
+
+def result(o, status, solver_s, extracted):
+    return {
+        "id": o["id"], "harness": o["id"], "backend": "verus-0.2026.09.13/z3", "kind": "complete" if o["kind"] in ("verbatim", "lemma") else o["kind"],
+        "bound": "", "role": o["kind"], "region": None, "functions": o["fns"], "pre": o["pre"], "post": o["post"], "inputs": [],
+        "counts": o["kind"] != "canary", "status": status, "raw_status": "SUCCESSFUL" if status == "DISCHARGED" else status,
+        "checks": None, "covers": None, "solver_s": solver_s, "failed_checks": [],
+        "extracted": [e for e in extracted if any(e["file"] in f for f in o["fns"])] if o["kind"] == "verbatim" else [],
+    }
